@@ -19,6 +19,7 @@ type solverRun struct {
 	secs    float64
 	times   map[int]float64
 	covers  map[int]string
+	exit    string
 }
 
 var solverCmds = map[string]func(file string, perMs int) []string{
@@ -53,8 +54,12 @@ func runSolver(solver, file string, perMs int, totalSec int) *solverRun {
 			fmt.Sscanf(line, "@obl %d", &cur)
 		case line == "@smoke":
 			cur = -1
+		case line == "@exit":
+			cur = -4
 		case line == "sat" || line == "unsat" || line == "unknown" || line == "timeout":
-			if cur == -3 {
+			if cur == -4 {
+				r.exit = line
+			} else if cur == -3 {
 				r.covers[cov] = line
 			} else if cur == -1 {
 				r.smoke = line
@@ -75,6 +80,7 @@ type FnResult struct {
 	Secs     float64
 	File     string
 	Smoke    string
+	Exit     string
 	Disagree []string
 }
 
@@ -89,6 +95,8 @@ func (e *Engine) Solve(vc *FnVC, dir string, perMs int, solvers []string, agree 
 	file := filepath.Join(dir, sanitize(vc.key)+".smt2")
 	z3script := strings.Replace(strings.Replace(script, ";;SMOKE-BEGIN", "(set-option :timeout 1500)", 1), ";;SMOKE-END", fmt.Sprintf("(set-option :timeout %d)", perMs), 1)
 	cvscript := strings.Replace(strings.Replace(script, ";;SMOKE-BEGIN", "(set-option :tlimit-per 1500)", 1), ";;SMOKE-END", fmt.Sprintf("(set-option :tlimit-per %d)", perMs), 1)
+	z3script = strings.Replace(strings.Replace(z3script, ";;EXIT-BEGIN", "(set-option :timeout 300)", 1), ";;EXIT-END", fmt.Sprintf("(set-option :timeout %d)", perMs), 1)
+	cvscript = strings.Replace(strings.Replace(cvscript, ";;EXIT-BEGIN", "(set-option :tlimit-per 300)", 1), ";;EXIT-END", fmt.Sprintf("(set-option :tlimit-per %d)", perMs), 1)
 	if err := os.WriteFile(file, []byte(z3script), 0o644); err != nil {
 		panic(err)
 	}
@@ -162,6 +170,9 @@ func (e *Engine) Solve(vc *FnVC, dir string, perMs int, solvers []string, agree 
 			res.Runs = append(res.Runs, run)
 			if run.smoke != "" && (res.Smoke == "" || res.Smoke == "unknown") {
 				res.Smoke = run.smoke
+			}
+			if run.exit != "" && (res.Exit == "" || res.Exit == "unknown" || res.Exit == "timeout") {
+				res.Exit = run.exit
 			}
 			for _, o := range vc.obls {
 				if o.Unclaimed != "" {
